@@ -13,6 +13,7 @@ Plain == (IsEv("reset") \/ IsEv("end")) /\ UNCHANGED <<ocls, oreg, gone>>
 (* the object carries its true type, the allocation class its origin implies, and size(type) usable bytes *)
 Obtain == /\ IsEv("obtain") /\ E.exc = ""
           /\ E.type = E.wanttype /\ ClsName(E.alloc) = E.wantcls /\ E.usable = 1
+          /\ E.ingc = E.reg                    \* the collector knows exactly the objects that were made through new / new_root / alloc / alloc_root / copy
           /\ ocls' = E.wantcls /\ oreg' = (E.reg = 1) /\ gone' = FALSE
 Dispose == /\ IsEv("dispose") /\ ~gone
            /\ LET e == Expect(ocls, oreg, E.what) IN
